@@ -108,6 +108,8 @@ def run(ctx):
             n = N * W
             order = "CF"[i % 2]
             data = ro(e2e.make_data({"N": N, "lengths": [45], "data_seed": 40 + i, "regimes": 2})[0], order)
+            if i % 4 == 3:
+                data = ro(np.round(np.asarray(data) * 4).astype(np.int64), order)
             T = 45 - W + 1
             lam = ro(np.full((n, n), 0.11) + 0.01 * np.eye(n), order) if i % 2 == 0 else 0.11
             beta = ro(np.full(T, 3.0)) if i % 3 == 0 else 3.0
@@ -121,6 +123,10 @@ def run(ctx):
             call("ticc_labels[%s]" % order, lambda: front_end.ticc_labels(data, window_size=W, num_clusters=K, sparsity_weight=lam, label_switching_cost=beta,
                                                                         iteration_limit=3, min_cluster_size=2), [data, lam, beta])
             series = [ro(s, order) for s in e2e.make_data({"N": N, "lengths": [30, 26], "data_seed": 60 + i, "regimes": 2})]
+            if i % 4 in (1, 2):
+                # series stored as counts / single precision: a caller's list of such arrays is still the caller's list
+                dt = [np.int64, np.float32][i % 2]
+                series = [ro(np.round(np.asarray(s) * 4).astype(dt), order) for s in series]
             lst = list(series)
             np.random.seed(i)
             jbeta = ro(np.full(sum(len(x) - W + 1 for x in series), 3.0)) if i % 2 else 3.0
